@@ -476,12 +476,16 @@ func c17Run(c *fw.Ctx) fw.Outcome {
 	// one that is buffered, a file, a chain) must not matter any more than the chunking does
 	tmp := filepath.Join(c.TmpDir(), "c17-doc")
 	os.WriteFile(tmp, d.Data, 0o644)
-	var file *os.File
+	var file, file2 *os.File
 	defer func() {
 		if file != nil {
 			file.Close()
 		}
+		if file2 != nil {
+			file2.Close()
+		}
 		os.Remove(tmp)
+		os.Remove(tmp + ".off")
 	}()
 	kinds := []struct {
 		name string
@@ -515,6 +519,17 @@ func c17Run(c *fw.Ctx) fw.Outcome {
 				cuts = append(cuts, p)
 			}
 			return struct{ io.Reader }{newSched(d.Data, cuts, false, nil)}
+		}},
+		{"a bytes.Reader positioned behind 564 bytes that belong to something else", func() io.Reader {
+			rd := bytes.NewReader(append(bytes.Repeat([]byte{0x47, 0x1f, 0xff, 0x10, 'x', '\n'}, 94), d.Data...))
+			rd.Seek(564, io.SeekStart)
+			return rd
+		}},
+		{"an os.File positioned behind 1000 bytes that belong to something else", func() io.Reader {
+			os.WriteFile(tmp+".off", append(bytes.Repeat([]byte("1\n00:00:01,000 --> 00:00:02,000\nsomething else\n\n"), 40)[:1000:1000], d.Data...), 0o644)
+			file2, _ = os.Open(tmp + ".off")
+			file2.Seek(1000, io.SeekStart)
+			return file2
 		}},
 		{"iotest.HalfReader", func() io.Reader { return iotest.HalfReader(bytes.NewReader(d.Data)) }},
 		{"iotest.DataErrReader", func() io.Reader { return iotest.DataErrReader(bytes.NewReader(d.Data)) }},
